@@ -227,20 +227,37 @@ Lemma table_run_partial : forall s, In s all_sync_shapes ->
     decide_sync s = Run -> names_complete s = true -> arg_level_error s = None.
 Proof. intros s _ _. apply names_complete_no_arg_error. Qed.
 
+(* membership in the table *)
+Lemma in_all_sync_shapes : forall t fa fc ff na nc nf ex,
+    In fa counts -> In fc counts -> In ff counts -> In na counts -> In nc counts -> In nf counts ->
+    In (mkSyncShape t (fun_of_triple fa fc ff) (fun_of_triple na nc nf) ex) all_sync_shapes.
+Proof.
+  intros t fa fc ff na nc nf ex Hfa Hfc Hff Hna Hnc Hnf. unfold all_sync_shapes.
+  apply in_flat_map. exists t. split; [apply kind_in_order|].
+  apply in_flat_map. exists fa. split; [exact Hfa|].
+  apply in_flat_map. exists fc. split; [exact Hfc|].
+  apply in_flat_map. exists ff. split; [exact Hff|].
+  apply in_flat_map. exists na. split; [exact Hna|].
+  apply in_flat_map. exists nc. split; [exact Hnc|].
+  apply in_flat_map. exists nf. split; [exact Hnf|].
+  apply in_map_iff. exists ex. split; [reflexivity|]. destruct ex; cbn [In]; auto.
+Qed.
+
 (* both decisions occur in the table *)
 Lemma table_nonvacuous :
   (exists s, In s all_sync_shapes /\ decide_sync s = Run)
   /\ (exists s, In s all_sync_shapes /\ decide_sync s = Reject /\ ss_truth_file_exists s = true
                 /\ files_total s >= 2 /\ ss_files s (ss_truth s) <> None).
 Proof.
-  assert (Hc : forall c, In c [Some 1; Some 2] -> In c counts) by (intros c Hc; right; exact Hc).
+  assert (H0 : In None counts) by (left; reflexivity).
+  assert (H1 : In (Some 1) counts) by (right; left; reflexivity).
   split.
   - exists (mkSyncShape KClass (fun_of_triple None (Some 1) (Some 1))
                         (fun_of_triple None (Some 1) (Some 1)) true).
-    split; [|reflexivity]. vm_compute. tauto.
+    split; [apply in_all_sync_shapes; assumption|reflexivity].
   - exists (mkSyncShape KClass (fun_of_triple None (Some 1) (Some 1))
                         (fun_of_triple None (Some 1) None) true).
-    split; [vm_compute; tauto|]. split; [reflexivity|]. split; [reflexivity|].
+    split; [apply in_all_sync_shapes; assumption|]. split; [reflexivity|]. split; [reflexivity|].
     split; [vm_compute; lia|discriminate].
 Qed.
 
